@@ -280,7 +280,11 @@ func (b *simBot) openMsg() *bgp.BGPMessage {
 // accepted connection). The previous connection, if any, is abandoned (closed).
 func (b *simBot) connect() {
 	srv := b.attach(179, 40000+b.idx)
-	b.w.must(b.w.s.mgmtOperation(func() error { b.w.s.passConnToPeer(srv); return nil }, false))
+	var c net.Conn = srv
+	if b.w.wrapConn != nil {
+		c = b.w.wrapConn(srv)
+	}
+	b.w.must(b.w.s.mgmtOperation(func() error { b.w.s.passConnToPeer(c); return nil }, false))
 }
 
 // attach gives the bot a fresh connection (closing the previous one) and returns the daemon's end
@@ -504,6 +508,8 @@ type simWorld struct {
 	logBuf   *bytes.Buffer
 	// logHandler, if set, receives every record the daemon logs (harness-owned seam: park sites)
 	logHandler slog.Handler
+	// wrapConn, if set, wraps the daemon's end of every connection a bot opens (park sites on Write / Close)
+	wrapConn func(*simConn) net.Conn
 	stats    map[string]int
 }
 
